@@ -223,3 +223,22 @@ def check_field_completeness(ctx, method: Func, cls: Class, call: ast.Call, targ
             continue
         ok, why = _own_value(method, binding[p], p, attr, defs)
         yield (p, ok, why)
+
+
+def keyword_field_agreement(ctx, func):
+    """For every call inside the method `func` that passes `keyword=self.<attr>`: when the object also has a field / property named
+    like the keyword, that one is the value meant.  Yields (call node, keyword, attr, ok, has_like_named_field)."""
+    from .defined import Definedness
+    import ast as _ast
+    if func.self_name is None or func.cls is None:
+        return
+    d = Definedness(ctx.res)
+    for c in own_nodes(func.node):
+        if not isinstance(c, _ast.Call):
+            continue
+        for k in c.keywords:
+            v = k.value
+            if k.arg and isinstance(v, _ast.Attribute) and isinstance(v.value, _ast.Name) and v.value.id == func.self_name:
+                same = v.attr.lstrip("_") == k.arg.lstrip("_")
+                like = any(d.has_member(func.cls, nm) for nm in (k.arg, "_" + k.arg.lstrip("_"), k.arg.lstrip("_")))
+                yield c, k.arg, v.attr, same, like
